@@ -151,6 +151,9 @@ def _update_view(prefix, links, leaf="job"):
         os.unlink(os.path.join(prefix, path))
     for path in chain(new, to_update):
         dst = os.path.join(prefix, path)
+        if os.path.isdir(dst) and not os.path.islink(dst):
+            # An (emptied) directory of the previous view is in the way of the link.
+            os.rmdir(dst)
         src = os.path.relpath(links[path], os.path.split(dst)[0])
         _make_link(src, dst)
 
@@ -235,12 +238,10 @@ def _find_all_links(root, leaf="job"):
 
     """
     for dirpath, dirnames, filenames in os.walk(root):
-        for dirname in dirnames:
-            if dirname == leaf:
-                yield os.path.relpath(dirpath, root)
-                break
-        for filename in filenames:
-            if filename == leaf:
+        # Only symbolic links are links of the view: a state point key or value called
+        # like the leaf creates a *directory* with that name.
+        for name in chain(dirnames, filenames):
+            if name == leaf and os.path.islink(os.path.join(dirpath, name)):
                 yield os.path.relpath(dirpath, root)
                 break
 
